@@ -1,6 +1,7 @@
 import Ufo2ftModel.Props.C06Complete
 import Ufo2ftModel.Props.C06CtxSound
 import Ufo2ftModel.Props.C06Frame
+import Ufo2ftModel.Props.C06CtxComplete
 /-!
 Property C06 — generated mark features make matching anchors coincide.
 
@@ -84,15 +85,12 @@ theorem C06_ligature (i : Input) (P : Program) (hwf : wf i = true) (hm : model i
     mem_candidates_iff.mp (C06_candidate i P hwf hm b m (some j) d h)
   exact ⟨gb, gm, hb, hgm, sm, hsm, k, hn, sb, hsb, by simpa [baseNameMatches] using hmatch, hd⟩
 
-/-- **C06_complete**: every eligible (glyph, mark, component) — matching anchors on a plain key, both glyphs passing the
-    GDEF / category filters — is attached by the generated lookups. -/
-theorem C06_complete (i : Input) (P : Program) (hwf : wf i = true) (hm : model i = .ok P) (b m : String) (c : Option Nat)
-    (he : eligible i b m c = true) : (attach P P.lookups b m c).isSome = true := by
-  obtain ⟨al, hal, rfl⟩ := model_ok hm
-  have w := alwf_of_ok (wf_wf0 hwf) hal
-  have cv := alcov_of_ok hal
-  have nl : NoLib i := wf_nolib hwf
-  obtain ⟨_, hcover⟩ := wf_iff i (wf_wf0 hwf)
+/-- the core of completeness, for any well-formed anchor list (object-lib data and contextual anchors allowed): an eligible
+    (glyph, mark, component) is attached by one of the non-contextual lookups of `build` -/
+theorem complete_build {i : Input} {al : AList} (w : ALwf i al) (cv : ALcov i al)
+    (hcover : ∀ g ∈ i.glyphs, g.name ∈ i.abvm ∨ g.name ∈ i.notAbvm) {b m : String} {c : Option Nat}
+    (he : eligible i b m c = true) :
+    ∃ L ∈ (build i al).lookups, (attachLookup (build i al) L b m c).isSome = true := by
   unfold eligible at he
   cases hfb : findGlyph i b with
   | none => rw [hfb] at he; simp at he
@@ -112,15 +110,15 @@ theorem C06_complete (i : Input) (P : Program) (hwf : wf i = true) (hm : model i
         simp only [Bool.and_eq_true, any_eq_true] at hpair
         obtain ⟨hpk, sb, hsb, hmatch⟩ := hpair
         obtain ⟨hn, _⟩ := markKey_some hmk
-        obtain ⟨am, ham, hmm, hmkey⟩ := na_of_src_mark cv nl hgm (by rw [hgmn]; exact hincm) hsm hn hpk
-        obtain ⟨ab, hab, hnb, hbkey, hbnum⟩ := na_of_src_base cv nl hgb (by rw [hgbn]; exact hincb) hsb hpk c hmatch
+        obtain ⟨am, ham, hmm, hmkey, hmname⟩ := na_of_src_mark cv hgm (by rw [hgmn]; exact hincm) hsm hn hpk
+        obtain ⟨ab, hab, hnb, hbkey, hbnum, hplb⟩ := na_of_src_base w cv hgb (by rw [hgbn]; exact hincb) hsb hpk c hmatch
         rw [hgmn] at ham
         rw [hgbn] at hab
         obtain ⟨asm0, hasm0, ham0⟩ := ham
         obtain ⟨asb0, hasb0, hab0⟩ := hab
-        have hplb : ab.ctx = none := noctx w nl hasb0 hab0
+        have hplm : am.ctx = none := plain_of_us w hasm0 ham0 (by rw [hmname]; exact hn)
         have p : Pair al b m ab am :=
-          ⟨⟨asb0, hasb0, hab0⟩, ⟨asm0, hasm0, ham0⟩, hnb, hmm, noctx w nl hasm0 ham0, by rw [hmkey, hbkey]⟩
+          ⟨⟨asb0, hasb0, hab0⟩, ⟨asm0, hasm0, ham0⟩, hnb, hmm, hplm, by rw [hmkey, hbkey]⟩
         obtain ⟨fB, fM, inc, mf, hinc, hmf, rB, rL, rM⟩ := route al ab (hcover gb hgb |> fun h => by rw [hgbn] at h; exact h)
         cases c with
         | none =>
@@ -128,23 +126,23 @@ theorem C06_complete (i : Input) (P : Program) (hwf : wf i = true) (hm : model i
           simp only [Bool.or_eq_true] at hcond
           by_cases hmg : b ∈ mgOf i al
           · obtain ⟨L, hL, hs⟩ := mkmk_attach w p hokm hplb hbnum hmg fM inc mf hinc hmf
-            exact attach_isSome_of_mem (rM L hL) hs
+            exact ⟨L, rM L hL, hs⟩
           · have hbase : baseOK i b = true := by
               rcases hcond with h | h
-              · exact absurd (mg_of_isMarkGlyph w cv nl hfb h) hmg
+              · exact absurd (mg_of_isMarkGlyph w cv hfb h) hmg
               · exact h
             obtain ⟨L, hL, hs⟩ := base_attach w p hokm hplb hbnum hmg hbase fB inc mf hinc hmf
-            exact attach_isSome_of_mem (rB L hL) hs
+            exact ⟨L, rB L hL, hs⟩
         | some j =>
           simp only [Option.map_some] at hbnum
           simp only [Bool.and_eq_true, Bool.not_eq_true'] at hcond
           obtain ⟨⟨hnmk, hlig⟩, hnull⟩ := hcond
           have hmg : b ∉ mgOf i al := by
             intro h
-            rw [isMarkGlyph_of_mg w nl hfb h] at hnmk; simp at hnmk
-          have hnonull : ∀ as, (b, as) ∈ al → ∀ a ∈ as, a.number = some (j + 1) → a.key ≠ "" := by
-            intro as has a ha hnum hkey
-            have hsa := w.shape _ has a ha (noctx w nl has ha)
+            rw [isMarkGlyph_of_mg w hfb h] at hnmk; simp at hnmk
+          have hnonull : ∀ as, (b, as) ∈ al → ∀ a ∈ as, a.ctx = none → a.number = some (j + 1) → a.key ≠ "" := by
+            intro as has a ha hpl hnum hkey
+            have hsa := w.shape _ has a ha hpl
             have hnmark : a.isMark = false := by
               cases hmk' : a.isMark with
               | false => rfl
@@ -160,7 +158,16 @@ theorem C06_complete (i : Input) (P : Program) (hwf : wf i = true) (hm : model i
               any_eq_true.mpr ⟨s, hs, by rw [hsn]; simpa using hl⟩
             rw [this] at hnull; simp at hnull
           obtain ⟨L, hL, hs⟩ := lig_attach w p hokm hplb j hbnum hmg hlig hnonull fB inc mf hinc hmf
-          exact attach_isSome_of_mem (rL L hL) hs
+          exact ⟨L, rL L hL, hs⟩
+
+/-- **C06_complete**: every eligible (glyph, mark, component) — matching anchors on a plain key, both glyphs passing the
+    GDEF / category filters — is attached by the generated lookups. -/
+theorem C06_complete (i : Input) (P : Program) (hwf : wf i = true) (hm : model i = .ok P) (b m : String) (c : Option Nat)
+    (he : eligible i b m c = true) : (attach P P.lookups b m c).isSome = true := by
+  obtain ⟨al, hal, rfl⟩ := model_ok hm
+  obtain ⟨_, hcover⟩ := wf_iff i (wf_wf0 hwf)
+  obtain ⟨L, hL, hs⟩ := complete_build (alwf_of_ok (wf_wf0 hwf) hal) (alcov_of_ok hal) hcover he
+  exact attach_isSome_of_mem hL hs
 
 
 /-! ### the Bool predicates the driver evaluates on OBSERVED tables hold of the model's own tables -/
@@ -463,6 +470,65 @@ theorem C06_offset_general (i : Input) (X : ProgramX) (hwf : wf0 i = true) (hm :
   have h2 : attach (build i al) ls b m c = some d := (attach_congr (by rfl) ls b m c).trans h
   exact offset_sound (alwf_of_ok hwf hal) (fun L hL => mem_orderLookups (hls L hL)) h2
 
+theorem build_lookup_feature {i : Input} {al : AList} {L : Lookup} (h : L ∈ (build i al).lookups) :
+    L.feature = "abvm" ∨ L.feature = "blwm" ∨ L.feature = "mark" ∨ L.feature = "mkmk" := by
+  rw [build_eq] at h
+  simp only [mem_append] at h
+  rcases h with ((h | h) | h) | h
+  · exact Or.inl (abvmLOf_feature h)
+  · exact Or.inr (Or.inl (blwmLOf_feature h))
+  · exact Or.inr (Or.inr (Or.inl (markLOf_feature h)))
+  · exact Or.inr (Or.inr (Or.inr (mkmkLOf_feature h)))
+
+theorem mem_orderLookups_of {ls : List Lookup} {a b : Bool} {L : Lookup} (h : L ∈ ls)
+    (hf : L.feature = "abvm" ∨ L.feature = "blwm" ∨ L.feature = "mark" ∨ L.feature = "mkmk") : L ∈ orderLookups ls a b := by
+  unfold orderLookups
+  simp only [mem_append]
+  rcases hf with hf | hf | hf | hf
+  · exact Or.inl (Or.inl (Or.inl (Or.inr (mem_filter.mpr ⟨h, by simp [hf]⟩))))
+  · exact Or.inl (Or.inl (Or.inr (mem_filter.mpr ⟨h, by simp [hf]⟩)))
+  · cases a with
+    | true => exact Or.inl (Or.inl (Or.inl (Or.inl (Or.inl (mem_filter.mpr ⟨h, by simp [hf]⟩)))))
+    | false => exact Or.inl (Or.inr (mem_filter.mpr ⟨h, by simp [hf]⟩))
+  · cases b with
+    | true => exact Or.inl (Or.inl (Or.inl (Or.inl (Or.inr (mem_filter.mpr ⟨h, by simp [hf]⟩)))))
+    | false => exact Or.inr (mem_filter.mpr ⟨h, by simp [hf]⟩)
+
+/-- **C06_complete_general** (frame, completeness half): also in the presence of object-lib data and contextual anchors every
+    eligible (glyph, mark, component) — a plain `k` / `k_N` on the glyph, `_k` on the mark, both passing the GDEF / category
+    filters — is attached by the non-contextual lookups; contextual anchors take part in deciding what a mark glyph is
+    (`isMarkGlyph` counts `*k` with lib data as a base-side anchor) but never take an attachment away. -/
+theorem C06_complete_general (i : Input) (X : ProgramX) (hwf : wf0 i = true) (hm : modelX i = .ok X) (b m : String)
+    (c : Option Nat) (he : eligible i b m c = true) : (attach X.plain X.plain.lookups b m c).isSome = true := by
+  obtain ⟨al, cm, ck, hal, _, rfl⟩ := modelX_ok hm
+  obtain ⟨_, hcover⟩ := wf_iff i hwf
+  obtain ⟨L, hL, hs⟩ := complete_build (alwf_of_ok hwf hal) (alcov_of_ok hal) hcover he
+  refine attach_isSome_of_mem (L := L) (mem_orderLookups_of hL (build_lookup_feature hL)) ?_
+  rw [← hs]; exact congrArg Option.isSome (attachLookup_congr (P' := build i al) (by rfl) L b m c)
+
+/-- the Bool predicates on the table of all non-contextual lookups hold of the extended model's own table, object-lib data or not -/
+theorem C06_holds_general (i : Input) (X : ProgramX) (hwf : wf0 i = true) (hm : modelX i = .ok X) (K : Nat) :
+    holdsOffset i (tableOf X.plain X.plain.lookups (allQueries i K)) = true ∧
+    holdsSound i (tableOf X.plain X.plain.lookups (allQueries i K)) = true ∧
+    holdsComplete i K (tableOf X.plain X.plain.lookups (allQueries i K)) = true := by
+  refine ⟨?_, ?_, ?_⟩
+  · simp only [holdsOffset, all_eq_true, contains_iff_mem]
+    intro e he
+    exact C06_offset_general i X hwf hm _ (fun _ h => h) _ _ _ _ (mem_tableOf he)
+  · simp only [holdsSound, all_eq_true, Bool.not_eq_true', isEmpty_eq_false_iff]
+    intro e he
+    exact ne_nil_of_mem (C06_offset_general i X hwf hm _ (fun _ h => h) _ _ _ _ (mem_tableOf he))
+  · simp only [holdsComplete, all_eq_true, Bool.or_eq_true, Bool.not_eq_true', any_eq_true]
+    intro q hq
+    cases he : eligible i q.1 q.2.1 q.2.2 with
+    | false => exact Or.inl rfl
+    | true =>
+      right
+      have := C06_complete_general i X hwf hm _ _ _ he
+      cases ha : attach X.plain X.plain.lookups q.1 q.2.1 q.2.2 with
+      | none => rw [ha] at this; simp at this
+      | some d => exact ⟨(q, d), mem_filterMap.mpr ⟨q, hq, by rw [ha]; rfl⟩, by simp⟩
+
 /-- no contextual anchor is ever written into a non-contextual lookup -/
 theorem C06_plain_lookups_have_no_contextual_anchor (i : Input) (X : ProgramX) (hm : modelX i = .ok X) :
     ∃ al, anchorLists i = .ok al ∧ ∀ L ∈ X.plain.lookups, ∀ e ∈ L.entries, ∀ (j : Nat) (comp : List (String × Int × Int)),
@@ -493,6 +559,111 @@ theorem C06_ctx_holds (i : Input) (X : ProgramX) (hwf : wf0 i = true) (hm : mode
   obtain ⟨L', hL', hat⟩ := attach_some h1
   simp only [mem_singleton] at hL'; subst hL'
   exact C06_ctx_offset i X hwf hm L' hL _ _ _ _ hat
+
+theorem attach_singleton (P : Program) (L : Lookup) (b m : String) (c : Option Nat) :
+    attach P [L] b m c = attachLookup P L b m c := by
+  unfold attach
+  cases h : attachLookup P L b m c <;> simp [h]
+
+/-- the contextual part of the extended model that carries the contextual attachments of glyph `gb` -/
+def ctxPartX (i : Input) (X : ProgramX) (gb : SrcGlyph) : CtxFeature :=
+  if isMarkGlyph i gb then X.mkmkCtx else X.markCtx
+
+/-- **C06_ctx_complete** (the converse of C06_ctx_offset): for a glyph with a contextual anchor `*k…` / `*k_N…` carrying a
+    non-empty GPOS_Context and a mark glyph with `_k` (so that the mark class exists), both passing the writer's filters for
+    the destination, the contextual part of the right feature — mkmk when the glyph is itself a mark glyph, else mark
+    (ligature lookup for a numbered anchor, base lookup otherwise) — has a referenced lookup that attaches the mark to the
+    glyph (component N−1), and a dispatch line for the anchor's context under the text before its ';' — provided no other
+    contextual anchor of the glyph has the same context and key (`ctxEligible`; without that proviso the clause is false:
+    C06_ctx_ligature_last_wins_counterexample). -/
+theorem C06_ctx_complete (i : Input) (X : ProgramX) (hwf : wf0 i = true) (hm : modelX i = .ok X) (gb gm : SrcGlyph)
+    (hgb : gb ∈ i.glyphs) (hgm : gm ∈ i.glyphs) (sb : SrcAnchor) (hsb : sb ∈ gb.anchors) (c : Option Nat)
+    (he : ctxEligible i gb gm c sb = true) :
+    (∃ L ∈ (ctxPartX i X gb).refs, (attachLookup X.plain L gb.name gm.name c).isSome = true) ∧
+    ∀ before after, splitCtx (ctxOfSrc sb) = .ok (before, after) →
+      ∃ text, HasLine (ctxPartX i X gb).disp before ("# " ++ after, text) := by
+  obtain ⟨al, cm, ck, hal, hctx, rfl⟩ := modelX_ok hm
+  obtain ⟨hnd, _⟩ := wf_iff i hwf
+  obtain ⟨F, hF, ⟨L, hL, hs⟩, hdisp⟩ := ctx_complete (alwf_of_ok hwf hal) (alcov_of_ok hal) hnd hctx hgb hgm hsb he
+  have hFeq : ctxPartX i ⟨⟨(build i al).classes, orderLookups (build i al).lookups (!cm.refs.isEmpty) (!ck.refs.isEmpty)⟩, cm, ck⟩ gb = F := by
+    unfold ctxPartX
+    unfold ctxFeatureOf at hF
+    rcases hF with ⟨rfl, hf⟩ | ⟨rfl, hf⟩
+    · split at hf
+      · simp at hf
+      · rename_i hmg; simp [hmg]
+    · split at hf
+      · rename_i hmg; simp [hmg]
+      · simp at hf
+  rw [hFeq]
+  refine ⟨⟨L, hL, ?_⟩, hdisp⟩
+  rw [← hs]; exact congrArg Option.isSome (attachLookup_congr (P' := build i al) (by rfl) L _ _ c)
+
+theorem mem_allQueries {i : Input} {K : Nat} {gb gm : SrcGlyph} (hgb : gb ∈ i.glyphs) (hgm : gm ∈ i.glyphs) {c : Option Nat}
+    (hc : c ∈ none :: (List.range K).map some) : (gb.name, gm.name, c) ∈ allQueries i K := by
+  unfold allQueries
+  exact mem_flatMap.mpr ⟨gb, hgb, mem_flatMap.mpr ⟨gm, hgm, mem_map.mpr ⟨c, hc, rfl⟩⟩⟩
+
+/-- the Bool predicate the driver evaluates on the observed contextual part holds of the model's: per feature, with the
+    attachment table of every referenced lookup over all queries -/
+theorem C06_ctx_complete_holds (i : Input) (X : ProgramX) (hwf : wf0 i = true) (hm : modelX i = .ok X) (K : Nat) :
+    holdsCtxComplete i K "mark" (X.markCtx.refs.map (fun L => tableOf X.plain [L] (allQueries i K))) X.markCtx.disp = true ∧
+    holdsCtxComplete i K "mkmk" (X.mkmkCtx.refs.map (fun L => tableOf X.plain [L] (allQueries i K))) X.mkmkCtx.disp = true := by
+  have key : ∀ (f : String) (F : CtxFeature), (∀ gb, ctxFeatureOf i gb = f → ctxPartX i X gb = F) →
+      holdsCtxComplete i K f (F.refs.map (fun L => tableOf X.plain [L] (allQueries i K))) F.disp = true := by
+    intro f F hF
+    simp only [holdsCtxComplete, all_eq_true, Bool.or_eq_true, Bool.not_eq_true', Bool.and_eq_true, any_eq_true, beq_iff_eq]
+    intro gb hgb sb hsb gm hgm c hc
+    cases he : (ctxEligible i gb gm c sb && ctxFeatureOf i gb == f) with
+    | false => exact Or.inl rfl
+    | true =>
+      right
+      simp only [Bool.and_eq_true, beq_iff_eq] at he
+      obtain ⟨⟨L, hL, hs⟩, hdisp⟩ := C06_ctx_complete i X hwf hm gb gm hgb hgm sb hsb c he.1
+      rw [hF gb he.2] at hL hdisp
+      constructor
+      · refine ⟨_, mem_map.mpr ⟨L, hL, rfl⟩, ?_⟩
+        cases ha : attachLookup X.plain L gb.name gm.name c with
+        | none => rw [ha] at hs; simp at hs
+        | some d =>
+          exact ⟨((gb.name, gm.name, c), d), mem_filterMap.mpr ⟨_, mem_allQueries hgb hgm hc,
+            by rw [attach_singleton, ha]; rfl⟩, rfl⟩
+      · cases hsp : splitCtx (ctxOfSrc sb) with
+        | error e => trivial
+        | ok ba =>
+          obtain ⟨text, hline⟩ := hdisp ba.1 ba.2 (by rw [hsp])
+          obtain ⟨d, hd, hd1, hl⟩ := hline
+          simp only [any_eq_true, Bool.and_eq_true, beq_iff_eq]
+          exact ⟨d, hd, hd1, _, hl, rfl⟩
+  constructor
+  · apply key
+    intro gb hf
+    unfold ctxPartX; unfold ctxFeatureOf at hf
+    split at hf
+    · simp at hf
+    · rename_i hmg; simp [hmg]
+  · apply key
+    intro gb hf
+    unfold ctxPartX; unfold ctxFeatureOf at hf
+    split at hf
+    · rename_i hmg; simp [hmg]
+    · simp at hf
+
+/-- **C06_ctx_ligature_last_wins_counterexample**: without the proviso of C06_ctx_complete the clause is false.  Two contextual
+    anchors of one ligature with the same context and key on DIFFERENT components (`*top_1` and `*top_2`, both "* x") make two
+    `pos ligature f_i …` statements in one referenced lookup — each with its own component filled and the other NULL —, and
+    feaLib keeps only the last statement of a glyph: the loop body `ctxStep` produces a lookup whose only entry is the second
+    statement, so component 1 (index 0) gets no contextual attachment although its anchor is there. -/
+theorem C06_ctx_ligature_last_wins_counterexample :
+    let e1 : Entry := ⟨"f_i", [[("MC_top", 100, 200)], []]⟩
+    let e2 : Entry := ⟨"f_i", [[], [("MC_top", 150, 550)]]⟩
+    let P : Program := ⟨[("MC_top", [⟨"m", 10, 20⟩])], []⟩
+    ∃ st, ctxStep [("top", "MC_top")] "mark" "ContextualMark" .liga "* x" "top" ["f_i", "f_i"] [e1, e2] ⟨[], []⟩ = .ok st ∧
+      st.refs.map (·.entries) = [[e2]] ∧
+      attachLookup P ⟨"mark", .liga, [e2]⟩ "f_i" "m" (some 0) = none ∧
+      attachLookup P ⟨"mark", .liga, [e2]⟩ "f_i" "m" (some 1) = some (140, 530) ∧
+      attachLookup P ⟨"mark", .liga, [e1]⟩ "f_i" "m" (some 0) = some (90, 180) := by
+  refine ⟨_, rfl, by decide, by decide, by decide, by decide⟩
 
 /-- **C06_frame**: on a font without object-lib data (`wf`) the writer with the contextual code is the writer without it:
     same mark classes, same lookups in the same order, no contextual lookups — so every theorem about `model` is a theorem
